@@ -169,6 +169,8 @@ def setup(concepts, spec):
 
 
 def cases(tier, seed, spec):
+    # a few contexts with thousands of objects and a tiny lattice (size thresholds in the enumeration)
+    yield from (c for c in gen.huge(seed, 4 if tier == 'quick' else 16) if c['fam'].endswith('tall'))
     yield from gen.biglat(tier)
     yield from gen.ctx_stream(tier, seed)
 
